@@ -151,10 +151,13 @@ void Builder::formatDate( std::string& dest, const Part& part_def,
    auto const  use_format_str = part_def.mConstant.empty() ? format_str :
                                 part_def.mConstant.c_str();
    char        timestamp_str[ 128];
+   struct tm   broken_down_time;
 
 
+   // localtime() returns a pointer to an object that all threads share
+   ::localtime_r( &timestamp, &broken_down_time);
    ::strftime( timestamp_str, sizeof( timestamp_str) - 1, use_format_str,
-               ::localtime( &timestamp));
+               &broken_down_time);
    dest.append( timestamp_str);
 
 } // Builder::formatDate
